@@ -261,6 +261,9 @@ func deepNest(t *rapid.T) (string, string) {
 	case 1:
 		return "{sum(l: " + strings.Repeat("[", n) + strings.Repeat("]", n) + ")}", "exe"
 	case 2:
+		if n > 1000 {
+			n = 1000 // (coercing nested input objects is quadratic in the depth: every level coerces its subtree again)
+		}
 		return "{inp(in: " + strings.Repeat("{c: ", n) + "null" + strings.Repeat("}", n) + ")}", "exe"
 	case 3:
 		return "type Query { a: " + strings.Repeat("[", n) + "Int" + strings.Repeat("]", n) + " }", "sdl"
@@ -456,7 +459,11 @@ func TestC03(t *testing.T) {
 		one(func(f string, a ...interface{}) { t.Fatalf("REPLAY-FAIL "+f, a...) }, &in)
 		return
 	}
-	// the fixed corpus first: every hand-written adversarial and valid request, on its own
+	// the fixed corpus first (in one shard only): every hand-written adversarial and valid request, on its own
+	if sh := os.Getenv("VERIF_SHARD"); sh != "" && sh != "0" {
+		rapid.Check(t, func(rt *rapid.T) { one(rt.Fatalf, genInput(rt)) })
+		return
+	}
 	for _, txt := range append(append([]string{}, adversarial...), validRequests...) {
 		for _, op := range []string{"", "Q"} {
 			one(t.Fatalf, &Input{Target: "exe", Text: txt, Op: op, Fault: -1, Note: "exe-corpus"})
@@ -482,6 +489,22 @@ func TestC03(t *testing.T) {
 				in.Fault, in.Mode, in.Note = len(txt), mode, "value-corpus-reader"
 			}
 			one(t.Fatalf, in)
+		}
+	}
+	// every byte that belongs to no token class, wherever a value can stand
+	for b := 0; b < 256; b++ {
+		ch := string([]byte{byte(b)})
+		if strings.ContainsAny(ch, "abcdefghijklmnopqrstuvwxyzABCDEFGHIJKLMNOPQRSTUVWXYZ0123456789_ \t\r\n,") {
+			continue
+		}
+		for _, txt := range []string{"[1 " + ch + " 2]", "[" + ch + "]", "{a: " + ch + "}", "{a: [" + ch + "1]}", ch, "1" + ch, "\"s\"" + ch} {
+			one(t.Fatalf, &Input{Target: "value", Text: txt, Fault: -1, Note: "value-stray-byte"})
+		}
+		for _, txt := range []string{"{sum(l: [1 " + ch + " 2])}", "{inp(in: {a: " + ch + "})}", "{echo(s: " + ch + ")}", "query($v: [Int] = [" + ch + "]){sum(l: $v)}", "{str " + ch + "}", "{str @skip(if: " + ch + ")}"} {
+			one(t.Fatalf, &Input{Target: "exe", Text: txt, Fault: -1, Note: "exe-stray-byte"})
+		}
+		for _, txt := range []string{"type Query { a(x: [Int] = [" + ch + "]): Int }", "type Query { a: Int @deprecated(reason: " + ch + ") }", "type Query { a: Int " + ch + " }", "type Query " + ch + " { a: Int }"} {
+			one(t.Fatalf, &Input{Target: "sdl", Text: txt, Fault: -1, Note: "sdl-stray-byte"})
 		}
 	}
 	rapid.Check(t, func(rt *rapid.T) { one(rt.Fatalf, genInput(rt)) })
